@@ -166,6 +166,9 @@ class LeeMieContribution(Contribution):
         self.debug('bottome_pressure %s', bottom_pressure)
         self.debug('top_pressure %s', top_pressure)
 
+        if bottom_pressure < top_pressure:
+            bottom_pressure, top_pressure = top_pressure, bottom_pressure
+
         cloud_filter = (pressure_profile <= bottom_pressure) & \
             (pressure_profile >= top_pressure)
 
